@@ -125,8 +125,14 @@ Has(k) ==
   /\ res' = IF mode = "closed" THEN <<"closed", FALSE>> ELSE <<"none", store[k] # Absent>>
   /\ UNCHANGED <<store, snaps, its, tx, mode, ro, limbo>>
 
-\* CompactRange changes no contents.
+\* CompactRange changes no contents.  On a read-only DB it may be refused or be a
+\* no-op ("ro-any": the client may be told "none" or "readonly").
 Compact ==
+  /\ res' = <<IF mode = "closed" THEN "closed" ELSE IF ro THEN "ro-any" ELSE "none">>
+  /\ UNCHANGED <<store, snaps, its, tx, mode, ro, limbo>>
+
+\* GetProperty, Stats, SizeOf: no effect on contents; closed error after Close.
+Misc ==
   /\ res' = <<IF mode = "closed" THEN "closed" ELSE "none">>
   /\ UNCHANGED <<store, snaps, its, tx, mode, ro, limbo>>
 
